@@ -165,8 +165,8 @@ type Facts struct {
 	Enums    map[*types.Named]*Enum
 	Tables   map[*types.Var]*Table
 	AllTabs  []*Table // package-level tables, deterministic order
-	sums     map[*types.Func]*Summary
-	busy     map[*types.Func]bool
+	sums     map[sumKey]*Summary
+	busy     map[sumKey]bool
 	eff      *Effects
 	Problems []string
 	// TableProblems: what the table model could not represent, per table (Problems holds the same texts)
@@ -174,7 +174,7 @@ type Facts struct {
 }
 
 func Build(p *load.Program) *Facts {
-	f := &Facts{Prog: p, Enums: map[*types.Named]*Enum{}, Tables: map[*types.Var]*Table{}, sums: map[*types.Func]*Summary{}, busy: map[*types.Func]bool{}}
+	f := &Facts{Prog: p, Enums: map[*types.Named]*Enum{}, Tables: map[*types.Var]*Table{}, sums: map[sumKey]*Summary{}, busy: map[sumKey]bool{}}
 	for _, rel := range load.LibPkgs {
 		pk := p.Lib(rel)
 		f.collectEnums(pk)
